@@ -42,10 +42,9 @@ def body(case, rec):
         rec.label("skip:change-outside-centre")
         return
     if kind == "its" and invert and reaction_id(rsmi0) in SLOW_KNOWN:
-        # recorded finding C04-h2-reductive-amination-backward: with the full-ITS template the 144 matches each go
-        # through the explicit-hydrogen re-matching (about 3 minutes per application, all without result).  Excluded
-        # by construction and counted; the centre template of the same reaction stays in the search and reports it.
-        rec.label("excluded:known-h2-full-its-backward")
+        # cost exclusion (see rx_apply.SLOW_KNOWN_TEMPLATES): 20 736 equivalent outputs, about two minutes per
+        # application; counted in the class histogram, the centre template of the same reaction stays in the search.
+        rec.label("excluded:slow-h2-full-its-backward")
         return
     rsmi = cg.variant(rsmi0, case.get("spec") or {})
     r, p = rsmi.split(">>")
